@@ -1454,6 +1454,16 @@ def gen_pragmas():
                     for seam in ('mofwbem', 'mock'):
                         yield dict(check='pragma', seam=seam, entry='string', text=text, files=dep_files,
                                    ns=None, search=search, fault=None, origin='dependency')
+    # a class defined again in the same unit, with itself / a subclass of itself as superclass
+    for body in ('class TST_RD { uint8 k; };\nclass TST_RD : TST_RD { };',
+                 'class TST_RD { uint8 k; };\nclass TST_RD : TST_RD { };\ninstance of TST_RD { k = 1; };',
+                 'class TST_RB { uint8 k; };\nclass TST_RA : TST_RB { };\nclass TST_RB : TST_RA { };\n'
+                 'instance of TST_RA { k = 1; };',
+                 'class TST_RD { uint8 k; };\nclass TST_RD { uint16 k; string s; };\ninstance of TST_RD { k = 1; };',
+                 'class TST_RD { uint8 k; };\nclass tst_rd : TST_Base { };\ninstance of TST_RD { Id = "1"; };'):
+        for seam in ('mofwbem', 'direct', 'mock'):
+            yield dict(check='pragma', seam=seam, entry='string', text=body, files={}, ns=None,
+                       search=False, fault=None, origin='redefinition')
     # namespace argument of compile_string / compile_file
     for name in TEMPLATES:
         for ns in NAMESPACE_ARGS:
